@@ -99,6 +99,47 @@ pub fn run(vec: &J) -> Result<J, String> {
             let v = nest(form, n);
             Ok(json!({"op":"enc.nest","form":form,"n":n,"results":encode_all(&v)}))
         }
+        "enc.long" => {
+            // long texts of multi-byte characters at every alignment, in every text-carrying holder, bare and under each
+            // of the tags Dict::dis consults: byte-offset arithmetic on encoded text (truncation, slicing) meets a
+            // character boundary at some (pad, n)
+            let holder = vec["holder"].as_str().unwrap_or("str");
+            let ch = vec["ch"].as_str().unwrap_or("é");
+            let pad = vec["pad"].as_u64().unwrap_or(0) as usize;
+            let n = vec["n"].as_u64().unwrap_or(1) as usize;
+            let text = format!("{}{}", "a".repeat(pad), ch.repeat(n));
+            let v = match holder {
+                "str" => Value::make_str(&text),
+                "uri" => Value::make_uri(&text),
+                "refdis" => Value::Ref(Ref { value: "r".into(), dis: Some(text.clone()) }),
+                "ref" => Value::make_ref(&text),
+                "symbol" => Value::make_symbol(&text),
+                "xstr" => Value::make_xstr_from("Bin", &text),
+                "list" => Value::make_list(vec![Value::make_str(&text)]),
+                "dict" => {
+                    let mut d = Dict::new();
+                    d.insert("a".into(), Value::make_str(&text));
+                    Value::make_dict(d)
+                }
+                _ => {
+                    let mut d = Dict::new();
+                    d.insert("a".into(), Value::make_str(&text));
+                    Value::make_grid(Grid::make_from_dicts(vec![d]))
+                }
+            };
+            let mut results = encode_all(&v);
+            for tag in ["dis", "disMacro", "disKey", "name", "def", "tag", "navName", "id"] {
+                let mut d = Dict::new();
+                d.insert(tag.into(), v.clone());
+                for mut r in encode_all(&Value::make_dict(d)) {
+                    if r["api"] == "Dict::dis" || r["api"] == "Dict Display" || r["api"] == "Display" {
+                        r["api"] = J::from(format!("{{{tag}: ..}} {}", r["api"].as_str().unwrap_or("")));
+                        results.push(r);
+                    }
+                }
+            }
+            Ok(json!({"op":"enc.long","holder":holder,"ch":ch,"pad":pad,"n":n,"results":results}))
+        }
         _ => Err(format!("unknown enc op {op}")),
     }
 }
